@@ -129,6 +129,30 @@ func c08GenFacts() (string, string) {
 		})
 	}
 	fmt.Fprintf(&b, "/-- loader/loader.go Options.clone(): `Field=source` pairs of the composite literal -/\ndef c08_cloneCopies : List String := [%s]\n", joinLean(copied))
+	// printed bodies (without comments) of the functions the C08 models were written against
+	ipl := parse("interpolation/interpolation.go")
+	ms := parse("loader/mapstructure.go")
+	bodies := [][2]string{
+		{"c08_body_Interpolate", funcBody(ipl, "", "Interpolate")},
+		{"c08_body_recursiveInterpolate", funcBody(ipl, "", "recursiveInterpolate")},
+		{"c08_body_newPathError", funcBody(ipl, "", "newPathError")},
+		{"c08_body_getCasterForPath", funcBody(ipl, "Options", "getCasterForPath")},
+		{"c08_body_parseYAMLInt", funcBody(ip, "", "parseYAMLInt")},
+		{"c08_body_parseYAMLFloat", funcBody(ip, "", "parseYAMLFloat")},
+		{"c08_body_toInt", funcBody(ip, "", "toInt")},
+		{"c08_body_toInt64", funcBody(ip, "", "toInt64")},
+		{"c08_body_toFloat", funcBody(ip, "", "toFloat")},
+		{"c08_body_toFloat32", funcBody(ip, "", "toFloat32")},
+		{"c08_body_toBoolean", funcBody(ip, "", "toBoolean")},
+		{"c08_body_cast", funcBody(ms, "", "cast")},
+		{"c08_body_DeviceCount_DecodeMapstructure", funcBody(parse("types/device.go"), "DeviceCount", "DecodeMapstructure")},
+		{"c08_body_NanoCPUs_DecodeMapstructure", funcBody(parse("types/cpus.go"), "NanoCPUs", "DecodeMapstructure")},
+		{"c08_body_UnitBytes_DecodeMapstructure", funcBody(parse("types/bytes.go"), "UnitBytes", "DecodeMapstructure")},
+	}
+	b.WriteString("\n")
+	for _, kv := range bodies {
+		fmt.Fprintf(&b, "def %s : String := %s\n", kv[0], leanStr(kv[1]))
+	}
 	b.WriteString("\nend CV.Gen\n")
 	fmt.Fprintf(logw, "C08 facts: cast hook %d kinds, clone copies %d fields\n", len(hook), len(copied))
 	return "C08Facts.lean", b.String()
